@@ -10,6 +10,11 @@ class Ctx:
     def __init__(self, rnd, cfg, nvars=3):
         self.rnd = rnd; self.cfg = cfg; self.nreg = 3; self.nvars = nvars
         self.defined = set()
+        self.lists = {}            # list-valued variable -> shape: [n] (flat) or [n, m] (nested)
+
+    def paths(self, v):
+        sh = self.lists[v]
+        return [[i] for i in range(sh[0])] if len(sh) == 1 else [[i, j] for i in range(sh[0]) for j in range(sh[1])]
 
     def reg(self):
         r = self.nreg; self.nreg += 1
@@ -22,7 +27,10 @@ def gen_expr(cx, out, depth_ix=None):
     srcs = [0, 1, 2]
     vs = sorted(cx.defined)
     k = r.random()
-    if vs and k < 0.6:
+    if cx.lists and k < 0.25:
+        v = r.choice(sorted(cx.lists))
+        a = cx.reg(); out.append(["bgetidx", a, v, r.choice(cx.paths(v))])
+    elif vs and k < 0.6:
         a = cx.reg(); out.append(["bget", a, r.choice(vs)])
     else:
         a = r.choice(srcs)
@@ -54,7 +62,12 @@ def gen_body(cx, depth, length, ix=None, in_loop=False):
     out = []
     for _ in range(length):
         k = r.random()
-        if k < 0.55 or depth >= 2:
+        if (k < 0.55 or depth >= 2) and cx.lists and r.random() < 0.45:
+            # in-place write into a (nested) list variable: _.v[i][j] = e
+            v = r.choice(sorted(cx.lists))
+            e = gen_expr(cx, out, ix)
+            out.append(["bsetidx", v, r.choice(cx.paths(v)), e])
+        elif k < 0.55 or depth >= 2:
             v = r.choice(sorted(cx.defined)) if cx.defined else 0
             e = gen_expr(cx, out, ix)
             out.append(["bset", v, e])
@@ -62,7 +75,7 @@ def gen_body(cx, depth, length, ix=None, in_loop=False):
             c = gen_cond(cx, out, ix)
             thenb = gen_body(cx, depth + 1, r.choice([1, 2]), ix, in_loop)
             elifs = []
-            if r.random() < 0.35:
+            for _ in range(r.choice([0, 0, 0, 1, 1, 2, 3])):       # chains with several _elif: the running "no branch taken yet" condition
                 cb = []
                 cr = gen_cond(cx, cb, ix)
                 elifs.append([cb, cr, gen_body(cx, depth + 1, r.choice([1, 2]), ix, in_loop)])
@@ -100,8 +113,27 @@ def gen_case(rnd, moduli, bitlengths=(5, 6)):
         if rnd.random() < 0.5: prog.append(["constval", r0, rnd.choice([0, 1, 2])])
         else: prog.append(["bin", r0, "add", rnd.choice([0, 1, 2]), rnd.choice([0, 1, 2])])
         prog.append(["bset", v, r0]); cx.defined.add(v)
+    if rnd.random() < 0.4:
+        # a list-valued variable (flat or nested), built from fresh registers that are never used again
+        v = cx.nvars
+        shape = rnd.choice([[2], [3], [2, 2], [2, 2], [1, 3]])
+        def elem():
+            r0 = cx.reg()
+            if rnd.random() < 0.5: prog.append(["constval", r0, rnd.choice([0, 1, 2, 7])])
+            else: prog.append(["bin", r0, "add", rnd.choice([0, 1, 2]), rnd.choice([0, 1, 2])])
+            return r0
+        if len(shape) == 1:
+            es = [elem() for _ in range(shape[0])]
+            d = cx.reg(); prog.append(["list", d, es])
+        else:
+            rows = []
+            for _ in range(shape[0]):
+                es = [elem() for _ in range(shape[1])]
+                rr = cx.reg(); prog.append(["list", rr, es]); rows.append(rr)
+            d = cx.reg(); prog.append(["list", d, rows])
+        prog.append(["bset", v, d]); cx.lists[v] = shape
     prog += gen_body(cx, 0, rnd.choice([1, 2, 2, 3]))
-    for v in sorted(cx.defined):
+    for v in sorted(cx.defined) + sorted(cx.lists):
         prog.append(["bget", cx.reg(), v])
     ins = [rnd.choice([0, 1, 2, 3]), rnd.choice([0, 1, 2, 3, 4]), rnd.choice([0, 1, 2])]
     return dict(cfg=cfg, prog=prog, ins=ins)
@@ -135,6 +167,15 @@ def twin(case, cap_for=True):
                               "eq": lambda: int(a == b), "ne": lambda: int(a != b), "gt": lambda: int(a > b), "ge": lambda: int(a >= b)}[s[2]]()
             elif op == "bset": vals[s[1]] = regs[s[2]]
             elif op == "bget": regs[s[1]] = vals[s[2]]
+            elif op == "list": regs[s[1]] = [regs[i] for i in s[2]]
+            elif op == "bsetidx":
+                t = vals[s[1]]
+                for i in s[2][:-1]: t = t[i]
+                t[s[2][-1]] = regs[s[3]]
+            elif op == "bgetidx":
+                t = vals[s[2]]
+                for i in s[3]: t = t[i]
+                regs[s[1]] = t
             elif op == "oif":
                 _, cn, thenb, elifs, elseb = s
                 if regs[cn]: ev(thenb)
